@@ -1,8 +1,344 @@
 ------------------------------ MODULE Calendar ------------------------------
-\* C18: :in-range / :out-of-range. s = [k |-> "in-range"|"out-of-range"]
-\* STUB - to be filled in.  Every operator other than the entry point must carry a module-specific
-\* prefix, because CssDecl EXTENDS this module together with its siblings (shared name space).
+\* C18: :in-range / :out-of-range.  s = [k |-> "in-range"|"out-of-range"]
+\*
+\* R stratum.  Written from the HTML standard: "valid date string", "valid month string",
+\* "valid week string", "valid time string", "valid local date and time string", "valid
+\* floating-point number", the proleptic Gregorian calendar, ISO-8601 week numbering, and the
+\* definitions of "suffering from an underflow / overflow" and of :in-range / :out-of-range.
+\* Nothing here follows the shape of the implementation.
+\*
+\* Strings are Seq(Nat) code points.  Every operator but RangeHolds carries the prefix Cal
+\* (the module shares a name space with Str, Dom, Lang, TextSem, HtmlState).
+\*
+\* Integers in TLC are 32 bit.  Years are therefore never converted to a number: a year is
+\* its digit string; it is ordered by (length without leading zeros, lexicographic) and the
+\* calendar questions (leap year, week count) are asked of its residue modulo 400, computed
+\* digit by digit.  T-Calendar (CalThmPeriod400 and friends, checked by TLC in MC_C18_thm)
+\* is what justifies the residue: leap years and week counts have period 400.
 EXTENDS Integers, Sequences, FiniteSets, Str, Dom
 
-RangeHolds(d, s, i) == FALSE
+\* ---------------------------------------------------------------------------
+\* digit strings
+\* ---------------------------------------------------------------------------
+CalIsDigit(c) == c >= 48 /\ c <= 57
+CalAllDigits(s) == \A n \in 1..Len(s) : CalIsDigit(s[n])
+CalDigitRun(s, a, b) == a <= b /\ b <= Len(s) /\ a >= 1 /\ \A n \in a..b : CalIsDigit(s[n])
+
+\* value of a short digit string (callers guarantee at most 9 digits)
+RECURSIVE CalNat(_)
+CalNat(s) == IF Len(s) = 0 THEN 0 ELSE 10 * CalNat(SubSeq(s, 1, Len(s) - 1)) + (s[Len(s)] - 48)
+
+\* value of a digit string of any length modulo m (m small), digit by digit
+RECURSIVE CalModFrom(_, _, _, _)
+CalModFrom(s, m, n, acc) == IF n > Len(s) THEN acc ELSE CalModFrom(s, m, n + 1, (acc * 10 + (s[n] - 48)) % m)
+CalMod(s, m) == CalModFrom(s, m, 1, 0)
+
+\* without leading zeros (the empty string is zero)
+RECURSIVE CalStrip(_)
+CalStrip(s) == IF Len(s) > 0 /\ s[1] = 48 THEN CalStrip(Tail(s)) ELSE s
+RECURSIVE CalStripR(_)
+CalStripR(s) == IF Len(s) > 0 /\ s[Len(s)] = 48 THEN CalStripR(SubSeq(s, 1, Len(s) - 1)) ELSE s
+
+\* three-way comparisons: -1, 0, 1
+CalSgn(x) == IF x < 0 THEN -1 ELSE IF x > 0 THEN 1 ELSE 0
+\* lexicographic on sequences of naturals; a proper prefix is smaller
+RECURSIVE CalCmpLexFrom(_, _, _)
+CalCmpLexFrom(a, b, n) ==
+    IF n > Len(a) /\ n > Len(b) THEN 0
+    ELSE IF n > Len(a) THEN -1
+    ELSE IF n > Len(b) THEN 1
+    ELSE IF a[n] # b[n] THEN CalSgn(a[n] - b[n])
+    ELSE CalCmpLexFrom(a, b, n + 1)
+CalCmpLex(a, b) == CalCmpLexFrom(a, b, 1)
+\* natural numbers given as digit strings without leading zeros
+CalCmpDigits(a, b) == IF Len(a) # Len(b) THEN CalSgn(Len(a) - Len(b)) ELSE CalCmpLex(a, b)
+
+\* ---------------------------------------------------------------------------
+\* the proleptic Gregorian calendar and ISO-8601 weeks, on integer years
+\* ---------------------------------------------------------------------------
+CalLeap(y) == (y % 4 = 0 /\ y % 100 # 0) \/ y % 400 = 0
+CalDaysIn(y, m) == IF m = 2 THEN (IF CalLeap(y) THEN 29 ELSE 28)
+                   ELSE IF m \in {4, 6, 9, 11} THEN 30 ELSE 31
+CalYearLen(y) == IF CalLeap(y) THEN 366 ELSE 365
+
+\* day of the week of 1 January, 0 = Sunday .. 6 = Saturday (Gauss's formula)
+CalJan1(y) == (1 + 5 * ((y - 1) % 4) + 4 * ((y - 1) % 100) + 6 * ((y - 1) % 400)) % 7
+\* ISO-8601: a year has 53 weeks iff it starts on a Thursday, or is a leap year starting on a
+\* Wednesday; otherwise 52
+CalWeeksIn(y) == IF CalJan1(y) = 4 \/ (CalLeap(y) /\ CalJan1(y) = 3) THEN 53 ELSE 52
+
+\* -- an independent account of the same things, by counting days (used by the theorems) --
+\* days before 1 January of year y, counted from 1 January of year 1 (a Monday)
+CalDaysBefore(y) == 365 * (y - 1) + (y - 1) \div 4 - (y - 1) \div 100 + (y - 1) \div 400
+\* weekday by day count: day number n (0 = 1 January of year 1) falls on (n + 1) % 7, 0 = Sunday
+CalDowOfDayNo(n) == (n + 1) % 7
+\* ISO week 1 of year y is the week (Monday .. Sunday) containing 4 January: day number of its Monday
+CalWeek1Monday(y) == LET jan4 == CalDaysBefore(y) + 3
+                         back == (CalDowOfDayNo(jan4) + 6) % 7     \* days since Monday
+                     IN jan4 - back
+\* number of ISO weeks by definition: the Mondays of week 1 of consecutive years are that many weeks apart
+CalWeeksInByDef(y) == (CalWeek1Monday(y + 1) - CalWeek1Monday(y)) \div 7
+\* the ISO week to which 31 December of y belongs is week 1 (of y + 1) exactly when ...
+CalDec31InNextYear(y) == CalDaysBefore(y + 1) - 1 >= CalWeek1Monday(y + 1)
+
+\* ---------------------------------------------------------------------------
+\* years as digit strings
+\* ---------------------------------------------------------------------------
+\* "four or more ASCII digits, representing year, where year > 0"
+CalYearOk(ys) == Len(ys) >= 4 /\ CalAllDigits(ys) /\ Len(CalStrip(ys)) > 0
+\* a year in 1..400 with the same calendar (T-Calendar)
+CalYearRep(ys) == LET r == CalMod(ys, 400) IN IF r = 0 THEN 400 ELSE r
+
+\* ---------------------------------------------------------------------------
+\* parsed values.  A value is a record with ok; valid calendar values carry
+\*   y : the year as a digit string without leading zeros (<<>> for times)
+\*   r : the remaining fields, most significant first (naturals)
+\* ---------------------------------------------------------------------------
+CalNone == [ok |-> FALSE]
+CalVal(y, r) == [ok |-> TRUE, y |-> y, r |-> r]
+
+\* YYYY-MM
+CalParseMonth(s) ==
+    LET n == Len(s) IN
+    IF n >= 7 /\ s[n - 2] = 45 /\ CalDigitRun(s, n - 1, n) /\ CalYearOk(SubSeq(s, 1, n - 3))
+    THEN LET m == CalNat(SubSeq(s, n - 1, n)) IN
+         IF m >= 1 /\ m <= 12 THEN CalVal(CalStrip(SubSeq(s, 1, n - 3)), <<m>>) ELSE CalNone
+    ELSE CalNone
+
+\* YYYY-MM-DD
+CalParseDate(s) ==
+    LET n == Len(s) IN
+    IF n >= 10 /\ s[n - 2] = 45 /\ CalDigitRun(s, n - 1, n)
+    THEN LET ym == CalParseMonth(SubSeq(s, 1, n - 3))
+             dd == CalNat(SubSeq(s, n - 1, n)) IN
+         IF ym.ok /\ dd >= 1 /\ dd <= CalDaysIn(CalYearRep(SubSeq(s, 1, n - 6)), ym.r[1])
+         THEN CalVal(ym.y, <<ym.r[1], dd>>) ELSE CalNone
+    ELSE CalNone
+
+\* YYYY-Www
+CalParseWeek(s) ==
+    LET n == Len(s) IN
+    IF n >= 8 /\ s[n - 3] = 45 /\ s[n - 2] = 87 /\ CalDigitRun(s, n - 1, n) /\ CalYearOk(SubSeq(s, 1, n - 4))
+    THEN LET w == CalNat(SubSeq(s, n - 1, n)) IN
+         IF w >= 1 /\ w <= CalWeeksIn(CalYearRep(SubSeq(s, 1, n - 4)))
+         THEN CalVal(CalStrip(SubSeq(s, 1, n - 4)), <<w>>) ELSE CalNone
+    ELSE CalNone
+
+\* HH:MM, optionally :SS, optionally .f, .ff or .fff   (value: hour, minute, second, millisecond)
+CalParseTime(s) ==
+    LET n == Len(s)
+        hm == n >= 5 /\ CalDigitRun(s, 1, 2) /\ s[3] = 58 /\ CalDigitRun(s, 4, 5)
+        sec == n >= 8 /\ s[6] = 58 /\ CalDigitRun(s, 7, 8)
+        frac == n >= 10 /\ n <= 12 /\ s[9] = 46 /\ CalDigitRun(s, 10, n)
+        shape == hm /\ (n = 5 \/ (sec /\ (n = 8 \/ frac)))
+    IN IF shape
+       THEN LET h == CalNat(SubSeq(s, 1, 2))
+                mi == CalNat(SubSeq(s, 4, 5))
+                se == IF n >= 8 THEN CalNat(SubSeq(s, 7, 8)) ELSE 0
+                ms == IF n >= 10 THEN CalNat(SubSeq(s, 10, n)) * (IF n = 10 THEN 100 ELSE IF n = 11 THEN 10 ELSE 1) ELSE 0
+            IN IF h <= 23 /\ mi <= 59 /\ se <= 59 THEN CalVal(<<>>, <<h, mi, se, ms>>) ELSE CalNone
+       ELSE CalNone
+
+\* date, then "T" or a space, then time
+CalParseLocal(s) ==
+    LET ks == {k \in 1..Len(s) : s[k] \in {84, 32}} IN
+    IF Cardinality(ks) = 1
+    THEN LET k == CHOOSE x \in ks : TRUE
+             dt == CalParseDate(SubSeq(s, 1, k - 1))
+             tm == CalParseTime(SubSeq(s, k + 1, Len(s))) IN
+         IF dt.ok /\ tm.ok THEN CalVal(dt.y, dt.r \o tm.r) ELSE CalNone
+    ELSE CalNone
+
+\* order of calendar values of one type
+CalCmpCal(a, b) == LET c == CalCmpDigits(a.y, b.y) IN IF c # 0 THEN c ELSE CalCmpLex(a.r, b.r)
+
+\* ---------------------------------------------------------------------------
+\* numbers: "valid floating-point number"
+\*   optional "-"; digits, or digits "." digits, or "." digits; optional e|E, optional sign, digits
+\* value = sign * 0.ds * 10^e with ds free of leading and trailing zeros (ds = <<>> is zero)
+\* ---------------------------------------------------------------------------
+RECURSIVE CalSkipDigits(_, _)
+CalSkipDigits(s, p) == IF p <= Len(s) /\ CalIsDigit(s[p]) THEN CalSkipDigits(s, p + 1) ELSE p
+
+CalParseNum(s) ==
+    LET n == Len(s)
+        p0 == IF n >= 1 /\ s[1] = 45 THEN 2 ELSE 1
+        p1 == CalSkipDigits(s, p0)
+        hasInt == p1 > p0
+        hasDot == p1 <= n /\ s[p1] = 46
+        p2 == IF hasDot THEN CalSkipDigits(s, p1 + 1) ELSE p1
+        fracOk == hasDot => p2 > p1 + 1
+        hasExp == p2 <= n /\ s[p2] \in {101, 69}
+        p3 == IF hasExp /\ p2 + 1 <= n /\ s[p2 + 1] \in {45, 43} THEN p2 + 2 ELSE p2 + 1
+        p4 == IF hasExp THEN CalSkipDigits(s, p3) ELSE p2
+        expOk == hasExp => (p4 > p3 /\ p4 - p3 <= 6)      \* exponents of more than 6 digits are outside the model
+    IN IF (hasInt \/ hasDot) /\ fracOk /\ expOk /\ p4 = n + 1
+       THEN LET ints == SubSeq(s, p0, p1 - 1)
+                frac == IF hasDot THEN SubSeq(s, p1 + 1, p2 - 1) ELSE <<>>
+                all == ints \o frac
+                lead == Len(all) - Len(CalStrip(all))
+                ex == IF hasExp THEN (IF s[p2 + 1] = 45 THEN 0 - CalNat(SubSeq(s, p3, p4 - 1)) ELSE CalNat(SubSeq(s, p3, p4 - 1))) ELSE 0
+                ds == CalStripR(CalStrip(all))
+            IN [ok |-> TRUE, neg |-> (p0 = 2 /\ Len(ds) > 0), ds |-> ds,
+                e |-> IF Len(ds) = 0 THEN 0 ELSE Len(ints) - lead + ex]
+       ELSE CalNone
+
+CalCmpMag(a, b) ==      \* magnitudes
+    IF Len(a.ds) = 0 \/ Len(b.ds) = 0 THEN CalSgn(Len(a.ds) - Len(b.ds))
+    ELSE IF a.e # b.e THEN CalSgn(a.e - b.e) ELSE CalCmpLex(a.ds, b.ds)
+CalCmpNum(a, b) ==
+    IF a.neg /\ ~b.neg THEN -1
+    ELSE IF ~a.neg /\ b.neg THEN 1
+    ELSE IF a.neg THEN CalCmpMag(b, a) ELSE CalCmpMag(a, b)
+
+\* ---------------------------------------------------------------------------
+\* the input types with a range, their values and their order
+\* ---------------------------------------------------------------------------
+CalTDate == <<100,97,116,101>>
+CalTMonth == <<109,111,110,116,104>>
+CalTWeek == <<119,101,101,107>>
+CalTTime == <<116,105,109,101>>
+CalTLocal == <<100,97,116,101,116,105,109,101,45,108,111,99,97,108>>
+CalTNumber == <<110,117,109,98,101,114>>
+CalTRange == <<114,97,110,103,101>>
+CalTypes == {CalTDate, CalTMonth, CalTWeek, CalTTime, CalTLocal, CalTNumber, CalTRange}
+CalNumeric(t) == t \in {CalTNumber, CalTRange}
+
+CalParse(t, s) ==
+    CASE t = CalTDate  -> CalParseDate(s)
+      [] t = CalTMonth -> CalParseMonth(s)
+      [] t = CalTWeek  -> CalParseWeek(s)
+      [] t = CalTTime  -> CalParseTime(s)
+      [] t = CalTLocal -> CalParseLocal(s)
+      [] CalNumeric(t) -> CalParseNum(s)
+      [] OTHER -> CalNone
+CalValid(t, s) == CalParse(t, s).ok
+CalCmp(t, a, b) == IF CalNumeric(t) THEN CalCmpNum(a, b) ELSE CalCmpCal(a, b)
+CalLess(t, a, b) == CalCmp(t, a, b) < 0
+
+\* an attribute that may be absent: <<>> or <<value>>; absent parses to nothing
+CalParseOpt(t, o) == IF Len(o) = 0 THEN CalNone ELSE CalParse(t, o[1])
+
+\* v is out of the range [mn, mx] (each of the three possibly not ok).
+\* "an invalid or missing value is never out of range"; a bound that is invalid or missing does
+\* not constrain; a time range with mn > mx wraps around midnight: the allowed values are
+\* v >= mn or v <= mx, so out of range is mx < v < mn.
+CalOut(t, mn, mx, v) ==
+    /\ v.ok
+    /\ IF t = CalTTime /\ mn.ok /\ mx.ok /\ CalLess(t, mx, mn)
+       THEN CalLess(t, mx, v) /\ CalLess(t, v, mn)
+       ELSE (mn.ok /\ CalLess(t, v, mn)) \/ (mx.ok /\ CalLess(t, mx, v))
+
+\* ---------------------------------------------------------------------------
+\* the pseudo-classes
+\* ---------------------------------------------------------------------------
+CalInput == <<105,110,112,117,116>>
+CalAType == <<116,121,112,101>>
+CalAMin == <<109,105,110>>
+CalAMax == <<109,97,120>>
+CalAValue == <<118,97,108,117,101>>
+
+CalAttrOpt(d, i, nm) == IF HasAttr(d, i, nm) THEN <<AttrVal(d, i, nm)>> ELSE <<>>
+\* the type keyword is ASCII case-insensitive
+CalTypeOf(d, i) == IF HasAttr(d, i, CalAType) THEN Lower(AttrVal(d, i, CalAType)) ELSE <<>>
+
+\* an HTML input element whose type has a range and that carries a min or a max attribute
+CalCandidate(d, i) ==
+    /\ IsEl(d, i) /\ IsHtml(d) /\ IsHtmlEl(d, i)
+    /\ NameKey(d, d.name[i]) = CalInput
+    /\ CalTypeOf(d, i) \in CalTypes
+    /\ (HasAttr(d, i, CalAMin) \/ HasAttr(d, i, CalAMax))
+
+CalMinOf(d, i) == CalParseOpt(CalTypeOf(d, i), CalAttrOpt(d, i, CalAMin))
+CalMaxOf(d, i) == CalParseOpt(CalTypeOf(d, i), CalAttrOpt(d, i, CalAMax))
+CalValueOf(d, i) == CalParseOpt(CalTypeOf(d, i), CalAttrOpt(d, i, CalAValue))
+
+\* has range limitations: at least one valid bound
+CalLimited(d, i) == CalCandidate(d, i) /\ (CalMinOf(d, i).ok \/ CalMaxOf(d, i).ok)
+CalOutOfRange(d, i) == CalLimited(d, i) /\ CalOut(CalTypeOf(d, i), CalMinOf(d, i), CalMaxOf(d, i), CalValueOf(d, i))
+CalInRange(d, i) == CalLimited(d, i) /\ ~CalOutOfRange(d, i)
+
+RangeHolds(d, s, i) == IF s.k = "out-of-range" THEN CalOutOfRange(d, i) ELSE CalInRange(d, i)
+
+\* ---------------------------------------------------------------------------
+\* what the property decides (DESIGN section 5, underdetermined zones).  The definitions above
+\* give HTML's reading everywhere; a check gates only on elements all of whose strings are decided:
+\*  - numbers: the shape -?digits(.digits)? is valid under every reading, and strings that no
+\*    reading accepts (after optional leading white space and one optional sign there is neither a
+\*    digit nor "." digit) are invalid under every reading; everything else (exponents, ".5",
+\*    "5.", "+5", " 5", "5x" ..) is read differently by HTML's grammar, HTML's parsing rules and the
+\*    property text
+\*  - times with seconds, local date-times with seconds or with a space instead of "T": valid for
+\*    HTML, outside the forms the property text lists
+\* ---------------------------------------------------------------------------
+CalNumPlain(s) ==
+    LET n == Len(s)
+        p0 == IF n >= 1 /\ s[1] = 45 THEN 2 ELSE 1
+        p1 == CalSkipDigits(s, p0)
+        p2 == IF p1 <= n /\ s[p1] = 46 THEN CalSkipDigits(s, p1 + 1) ELSE p1
+    IN p1 > p0 /\ (p1 = n + 1 \/ (s[p1] = 46 /\ p2 > p1 + 1 /\ p2 = n + 1))
+RECURSIVE CalSkipWs(_, _)
+CalSkipWs(s, p) == IF p <= Len(s) /\ IsWs(s[p]) THEN CalSkipWs(s, p + 1) ELSE p
+CalNumHopeless(s) ==
+    LET n == Len(s)
+        q0 == CalSkipWs(s, 1)
+        q1 == IF q0 <= n /\ s[q0] \in {45, 43} THEN q0 + 1 ELSE q0
+    IN ~(q1 <= n /\ (CalIsDigit(s[q1]) \/ (s[q1] = 46 /\ q1 + 1 <= n /\ CalIsDigit(s[q1 + 1]))))
+
+CalDecided(t, s) ==
+    CASE CalNumeric(t) -> CalNumPlain(s) \/ CalNumHopeless(s)
+      [] t = CalTTime  -> ~(CalParseTime(s).ok /\ Len(s) > 5)
+      [] t = CalTLocal -> ~(CalParseLocal(s).ok /\ (\E k \in 1..Len(s) : s[k] = 32 \/ (s[k] = 84 /\ Len(s) - k > 5)))
+      [] OTHER -> TRUE
+CalDecidedOpt(t, o) == Len(o) = 0 \/ CalDecided(t, o[1])
+CalGated(d, i) ==
+    CalCandidate(d, i) =>
+        /\ CalDecidedOpt(CalTypeOf(d, i), CalAttrOpt(d, i, CalAMin))
+        /\ CalDecidedOpt(CalTypeOf(d, i), CalAttrOpt(d, i, CalAMax))
+        /\ CalDecidedOpt(CalTypeOf(d, i), CalAttrOpt(d, i, CalAValue))
+
+\* ---------------------------------------------------------------------------
+\* design-level theorems (each is an INVARIANT / ASSUME of MC_C18_thm; Y, strings are supplied there)
+\* ---------------------------------------------------------------------------
+\* T-Calendar: leap years, month lengths, 1 January's weekday and week counts have period 400
+CalThmPeriod400(y) ==
+    /\ CalLeap(y + 400) = CalLeap(y)
+    /\ CalJan1(y + 400) = CalJan1(y)
+    /\ CalWeeksIn(y + 400) = CalWeeksIn(y)
+    /\ \A m \in 1..12 : CalDaysIn(y + 400, m) = CalDaysIn(y, m)
+    /\ CalDaysBefore(y + 400) - CalDaysBefore(y) = 146097          \* = 20871 weeks
+\* Gauss's weekday formula is the day count
+CalThmJan1(y) == CalJan1(y) = CalDowOfDayNo(CalDaysBefore(y))
+\* the year is the sum of its months, consecutive years are a year apart
+CalThmYearLen(y) ==
+    /\ CalDaysBefore(y + 1) - CalDaysBefore(y) = CalYearLen(y)
+    /\ CalYearLen(y) = CalDaysIn(y,1) + CalDaysIn(y,2) + CalDaysIn(y,3) + CalDaysIn(y,4) + CalDaysIn(y,5) + CalDaysIn(y,6)
+                     + CalDaysIn(y,7) + CalDaysIn(y,8) + CalDaysIn(y,9) + CalDaysIn(y,10) + CalDaysIn(y,11) + CalDaysIn(y,12)
+\* the Thursday rule is ISO-8601's definition of the week count; every year has 52 or 53 weeks;
+\* when 31 December belongs to week 1 of the next year the year has 52 weeks, not 53
+CalThmWeeks(y) ==
+    /\ CalWeeksIn(y) = CalWeeksInByDef(y)
+    /\ CalWeeksIn(y) \in {52, 53}
+    /\ (CalDec31InNextYear(y) => CalWeeksIn(y) = 52)
+    /\ CalWeek1Monday(y) - CalDaysBefore(y) \in -3..3
+\* 71 of every 400 consecutive years have 53 weeks
+CalThm71(y0) == Cardinality({y \in y0..(y0 + 399) : CalWeeksIn(y) = 53}) = 71
+\* a year given as a digit string has the calendar of its representative
+CalThmRep(ys, y) == (CalYearRep(ys) - y) % 400 = 0 /\ CalYearRep(ys) \in 1..400
+\* the order of valid values of a type is a strict total order compatible with equality of values
+CalThmOrder(t, S) ==
+    \A a \in S : \A b \in S :
+        LET pa == CalParse(t, a)
+            pb == CalParse(t, b) IN
+        (pa.ok /\ pb.ok) =>
+            /\ CalCmp(t, pa, pb) = 0 - CalCmp(t, pb, pa)
+            /\ (CalCmp(t, pa, pb) = 0 <=> pa = pb)
+            /\ \A c \in S : LET pc == CalParse(t, c) IN
+                  (pc.ok /\ CalCmp(t, pa, pb) <= 0 /\ CalCmp(t, pb, pc) <= 0) => CalCmp(t, pa, pc) <= 0
+\* an element is never both, an invalid or missing value is never out of range, and without a
+\* valid bound an element is neither
+CalThmExclusive(d, i) ==
+    /\ ~(CalInRange(d, i) /\ CalOutOfRange(d, i))
+    /\ (~CalValueOf(d, i).ok => ~CalOutOfRange(d, i))
+    /\ ((CalInRange(d, i) \/ CalOutOfRange(d, i)) <=> CalLimited(d, i))
 =============================================================================
